@@ -19,17 +19,19 @@ AllArgs == 1..12
 \* ---- quick, exhaustive
 QuickFamilies == <<
   \* 1: every replacement kind (incl. refused ones) once, on every function with at most one operation over u, v
-  Fam({1, 2}, {}, {}, {"Add", "Mul", "Pow"}, 1, 2, 3, {"Replace"}, AllKinds, {1, 2, 3}, 1, 1, 1, {1, 2, 3}),
-  \* 2: two manipulations out of renamings / linearize / derivative / factor on powers and products of u
-  Fam({1}, {}, {}, {"Mul", "Pow"}, 1, 2, 3, {"Replace", "Lin", "Deriv", "Factor"}, Renamings, {1, 2, 3}, 2, 2, 0, {1, 3}),
+  Fam({1, 2}, {}, {}, {"Add", "Mul"}, 1, 2, 3, {"Replace"}, AllKinds, {1, 2, 3}, 1, 1, 1, {1, 2}),
+  \* 2: two manipulations out of renamings / linearize / derivative / factor on u and u * u (interleaved with the construction)
+  Fam({1}, {}, {}, {"Mul"}, 1, 2, 2, {"Replace", "Lin", "Deriv", "Factor"}, {"arg", "swap"}, {1, 2, 3}, 2, 2, 0, {1, 3}),
   \* 3: matrices and scalars: m @ u, sum, take, outer with one manipulation of every kind
   Fam({1, 4, 7}, {6}, {}, {"Mul", "Dot", "Sum", "Take", "Outer"}, 1, 2, 3, {"Replace", "Lin", "Lin2", "Deriv", "Factor"},
       {"arg", "const", "scale", "sq", "contract", "swap", "bad"}, {1, 2, 4, 5, 7, 8}, 1, 1, 1, {1, 2}),
-  \* 4: integrands on the mesh: field(X) (* s) (** 2, 3), one manipulation before or after integration
-  Fam({4}, {}, {9}, {"Mul", "Pow"}, 1, 2, 3, {"Replace", "Lin", "Deriv", "Factor", "Int"},
-      {"arg", "const"}, {4, 5, 9, 10}, 2, 2, 1, {1, 2}),
+  \* 4: integrands on the mesh: field(X) (times s, squared), two manipulations before / after integration
+  Fam({4}, {}, {9}, {"Mul"}, 1, 2, 2, {"Replace", "Lin", "Deriv", "Factor", "Int"},
+      {"arg", "const"}, {4, 5, 9, 10}, 2, 2, 0, {1, 2}),
   \* 5: integer arguments
-  Fam({11, 4}, {8}, {}, {"Mul", "Add", "Pow"}, 1, 2, 3, {"Replace"}, {"id", "arg", "const", "scale", "self", "swap", "bad"}, {11, 12, 4, 5}, 1, 0, 2, {1, 2})
+  Fam({11, 4}, {8}, {}, {"Mul", "Add", "Pow"}, 1, 2, 3, {"Replace"}, {"id", "arg", "const", "scale", "self", "swap", "bad"}, {11, 12, 4, 5}, 1, 0, 1, {1, 2}),
+  \* 6: linearize in one and in two arguments of the same shape (the two directions may coincide), then renamed
+  Fam({1, 2}, {}, {}, {"Mul", "Add"}, 1, 2, 2, {"Lin", "Lin2", "Replace"}, {"swap"}, {1, 2, 3}, 1, 1, 0, {1, 2})
 >>
 
 \* ---- compact vocabulary in which EVERY action of the machine is enabled (run with TLC's per-action coverage: vacuity guard)
@@ -39,13 +41,18 @@ CovFamilies == <<
 
 \* ---- thorough, exhaustive: the quick vocabularies one step deeper / wider
 ThoroughFamilies == <<
-  Fam({1, 2, 4}, {4}, {}, {"Add", "Mul", "Pow", "Dot", "Neg"}, 1, 2, 3, {"Replace"}, AllKinds, {1, 2, 3, 4, 5, 6}, 2, 1, 2, {1, 2, 3}),
-  Fam({1, 2}, {}, {}, {"Mul", "Pow", "Add"}, 1, 2, 3, {"Replace", "Lin", "Lin2", "Deriv", "Factor"}, Renamings \cup {"sq", "cross"}, {1, 2, 3}, 2, 1, 0, {1, 2, 3}),
-  Fam({1, 4, 7}, {6, 1}, {}, {"Add", "Mul", "Dot", "Sum", "Take", "Outer", "Pow"}, 1, 2, 3, {"Replace", "Lin", "Lin2", "Deriv", "Factor"},
-      AllKinds, {1, 2, 4, 5, 7, 8}, 2, 1, 2, {1, 2}),
-  Fam({4}, {}, {9}, {"Mul", "Pow", "Add"}, 1, 2, 3, {"Replace", "Lin", "Deriv", "Factor", "Int"},
-      {"arg", "const", "scale", "sq", "swap", "contract"}, {4, 5, 9, 10}, 3, 2, 1, {1, 2}),
-  Fam({11, 4, 12}, {8}, {}, {"Mul", "Add", "Pow", "Neg"}, 1, 2, 3, {"Replace", "Lin", "Deriv"}, AllKinds, {11, 12, 4, 5}, 2, 0, 2, {1, 2})
+  \* 1: two replacements of every kind in sequence
+  Fam({1, 2}, {4}, {}, {"Add", "Mul", "Pow"}, 1, 2, 3, {"Replace"}, AllKinds, {1, 2, 3}, 2, 1, 0, {1, 2}),
+  \* 2: two manipulations of every kind on functions of u, v
+  Fam({1, 2}, {}, {}, {"Mul", "Pow", "Add"}, 1, 2, 3, {"Replace", "Lin", "Lin2", "Deriv", "Factor"}, Renamings \cup {"sq", "cross"}, {1, 2, 3}, 2, 1, 0, {1, 3}),
+  \* 3: matrices and scalars, two manipulations
+  Fam({1, 4, 7}, {6}, {}, {"Mul", "Dot", "Sum", "Take", "Outer"}, 1, 2, 3, {"Replace", "Lin", "Lin2", "Deriv", "Factor"},
+      {"arg", "const", "scale", "sq", "contract", "swap", "bad"}, {1, 2, 4, 5, 7, 8}, 2, 1, 1, {1}),
+  \* 4: integrands on the mesh, up to three manipulations around the integral
+  Fam({4}, {}, {9}, {"Mul", "Add"}, 1, 2, 3, {"Replace", "Lin", "Deriv", "Factor", "Int"},
+      {"arg", "const", "swap"}, {4, 5, 9, 10}, 3, 2, 0, {1}),
+  \* 5: integer arguments
+  Fam({11, 4, 12}, {8}, {}, {"Mul", "Add", "Pow"}, 1, 2, 3, {"Replace", "Lin", "Deriv"}, AllKinds, {11, 12, 4, 5}, 2, 0, 1, {1})
 >>
 
 \* ---- small instance for the spec mutants (must violate an invariant)
